@@ -247,7 +247,12 @@ fn check_workspace(src: &Sources, phase: &str, with_base: bool, use_conf: bool, 
         let located = locs.iter().any(|(u, l, c)| {
             src.files.iter().any(|(n, t)| {
                 let url = lsp_types::Url::from_file_path(dir.path.join(n)).map(|u| u.to_string()).unwrap_or_default();
-                url == *u && *l >= 1 && *l <= t.lines().count() + 1 && *c >= 1 && *c <= t.lines().nth(*l - 1).map_or(1, |x| x.chars().count() + 1) + 1
+                // the report's line numbering is the reporting library's: it also breaks lines at CR, VT, FF, NEL, LS and PS
+                let breaks = t
+                    .chars()
+                    .filter(|c| matches!(c, '\n' | '\r' | '\u{b}' | '\u{c}' | '\u{85}' | '\u{2028}' | '\u{2029}'))
+                    .count();
+                url == *u && *l >= 1 && *l <= breaks + 1 && *c >= 1 && *c <= t.chars().count() + 1
             })
         });
         if located {
